@@ -17,8 +17,8 @@ KNOWN = {
     3: "C15-partition-plus",
     4: "C15-partition-default",
     5: "C15-partition-two-wildcards",
-    6: "C15-partition-newline",
 }
+# class 6 (C15-partition-newline) was fixed in /repo by d70d0d9; the number is not reused
 RULE = ("one case = one (writer+publisher QoS, reader+subscriber QoS, topic/type equal flags, two partition name "
         "lists); the real process_discovered_readers and process_discovered_writers are run on it (the discovered "
         "endpoint decoded from PL_CDR bytes by Discovered{Reader,Writer}Data::from_bytes) and both observations are "
@@ -349,7 +349,10 @@ def corpus():
         mk(pp=["a+"], sp=["aa"], tag="corpus"),      # class 3
         mk(pp=[], sp=[""], tag="corpus"),            # class 4
         mk(pp=["a*"], sp=["ab*"], tag="corpus"),     # class 5
-        mk(pp=["a?b"], sp=["a\nb"], tag="corpus"),   # class 6
+        # regression cases of d70d0d9 (`.` under (?s) matches a line feed): were N, must be M
+        mk(pp=["a?b"], sp=["a\nb"], tag="corpus"),
+        mk(pp=["a\nb"], sp=["a*b"], tag="corpus"),
+        mk(pp=["*"], sp=["\n"], tag="corpus"),
     ]
 
 
@@ -491,7 +494,7 @@ MANIFEST = {
              "are exactly the failing policies, each once, and the writer-side and reader-side functions always agree "
              "(unconditionally, as a permutation of the same ids). Partition: the translator plus a description of the "
              "regex crate is proved equal to POSIX fnmatch / the DDS partition rule on the supported pattern fragment "
-             "outside four recorded deviation classes (`+`, empty list vs \"\", two wildcard names, line feed), each with "
+             "outside three recorded deviation classes (`+`, empty list vs \"\", two wildcard names), each with "
              "a proved witness. End to end: matched iff topic, type, partition and RxO fit; an incompatible pair is "
              "reported on both sides with exactly the offending policies. The model is tied to /repo by running the real "
              "call sites on every kind combination per policy (thorough: all 589 824 combinations of all kinds), boundary "
